@@ -1169,6 +1169,8 @@ class ManifestRecursiveLoader:
         manifest_stack = list(reversed(
             self._iter_manifests_for_path(path)))
         directory_ids = {}
+        # Manifests met during the walk (they have a MANIFEST entry)
+        linked_manifests = set()
 
         it = os.walk(os.path.join(self.root_directory, path),
                      onerror=throw_exception,
@@ -1241,6 +1243,7 @@ class ManifestRecursiveLoader:
                     if fe.tag == 'IGNORE':
                         continue
                     if fe.tag == 'MANIFEST':
+                        linked_manifests.add(fpath)
                         manifest_stack.append(
                             (fpath, relpath, self.loaded_manifests[fpath]))
                         # do not update the Manifest entry if
@@ -1255,6 +1258,7 @@ class ManifestRecursiveLoader:
                         continue
                     if fpath in new_manifests:
                         ftype = 'MANIFEST'
+                        linked_manifests.add(fpath)
                         manifest_stack.append(
                             (fpath, relpath, self.loaded_manifests[fpath]))
                     else:
@@ -1344,7 +1348,9 @@ class ManifestRecursiveLoader:
                 self.updated_manifests.add(mpath)
 
         # check for removed files
-        unlinked_manifests = set()
+        # (a newly found Manifest that was not visited lies in a directory
+        # ignored by another newly found Manifest)
+        unlinked_manifests = set(new_manifests) - linked_manifests
         for relpath, me in entry_dict.items():
             mpath, fe = me
             if fe.tag == 'IGNORE':
@@ -1356,8 +1362,8 @@ class ManifestRecursiveLoader:
                 unlinked_manifests.add(relpath)
 
         # a Manifest whose MANIFEST entry has just been removed (it lies
-        # in an ignored or hidden directory) is no longer part
-        # of the tree, so do not attempt to save it
+        # in an ignored or hidden directory) or that never got one
+        # is not part of the tree, so do not attempt to save it
         for mpath in unlinked_manifests:
             self.updated_manifests.discard(mpath)
             self.loaded_manifests.pop(mpath, None)
